@@ -160,8 +160,11 @@ def register(g):
         files = ['boss_deploy', 'boss_doer_interface', 'boss_frontend', 'boss_launch', 'boss_progress', 'boss_sync', 'doer', 'encrypted_comms', 'exe_utils',
                  'histogram', 'logger_and_progress', 'main', 'memory_bound_channel', 'ordered_map', 'parallel_walk_dir', 'root_relative_path', 'embedded_binaries']
         KINDS = [('unwrap', r'\.unwrap\(\)'), ('expect', r'\.expect\('), ('panic', r'\bpanic!\('), ('assert', r'\bassert(?:_eq|_ne)?!\('),
-                 ('debug_assert', r'\bdebug_assert(?:_eq|_ne)?!\('), ('unreachable', r'\b(?:unreachable|unimplemented|todo)!\(')]
-        inv = collections.Counter()
+                 ('debug_assert', r'\bdebug_assert(?:_eq|_ne)?!\('), ('unreachable', r'\b(?:unreachable|unimplemented|todo)!\('),
+                 # implicit panics: calls that panic outside the value's range / off a char boundary, indexing and range slicing
+                 ('split', r'\.(?:split_at|split_at_mut|split_off|swap_remove|copy_from_slice|splice|drain)\('),
+                 ('index', r'(?<=[\w\)\]])\[(?!\s*\])[^\[\]\n]*\]')]
+        inv = collections.Counter(); first_site = {}
         for f in files:
             try:
                 src = strip_comments(read(f'src/{f}.rs'))
@@ -172,12 +175,21 @@ def register(g):
             fns = [(m.start(), m.group(1)) for m in _re.finditer(r'\bfn\s+(\w+)', src)]
             for kind, pat in KINDS:
                 for m in _re.finditer(pat, src):
-                    fn = [n for p_, n in fns if p_ < m.start()]
-                    inv[(f, fn[-1] if fn else '', kind)] += 1
-        table = {(g[0], g[1], g[2]): g[3] for g in _json.load(open(_os.path.join(g_['V'], 'panic_sites.json')))['groups']}
+                    fn = [(p_, n) for p_, n in fns if p_ < m.start()]
+                    key = (f, fn[-1][1] if fn else '', kind)
+                    inv[key] += 1
+                    # text of the enclosing function up to the first site of the group (for `guard_before`)
+                    first_site.setdefault(key, src[fn[-1][0] if fn else 0:m.start()])
+        groups = _json.load(open(_os.path.join(g_['V'], 'panic_sites.json')))['groups']
+        table = {(g[0], g[1], g[2]): g[3] for g in groups}
+        guards = {(g[0], g[1], g[2]): g[5] for g in groups if len(g) > 5}
         rows, bad = [], []
         for k, v in sorted(inv.items()):
             ok = table.get(k) == v
+            if ok and k in guards and not _re.search(guards[k], first_site[k], _re.S):
+                ok = False
+                bad.append(f'{k[0]}.rs fn {k[1]} {k[2]}: the guard /{guards[k]}/ no longer precedes the site')
+                rows.append((k, v, ok)); continue
             rows.append((k, v, ok))
             if not ok:
                 bad.append(f'{k[0]}.rs fn {k[1]} {k[2]} x{v} (table: {table.get(k)})')
@@ -216,5 +228,44 @@ def register(g):
         write('Walker.lean', 'import RjModel.Model.Walker\nnamespace Rj.Generated\ndef walkFeatures : WalkFeatures := ⟨' +
               ', '.join(b(f[k]) for k in ('entrySentBeforeJobQueued', 'incBeforeEnqueue', 'recursesOnUnfollowedType', 'skipBeforeSend', 'lastFinisherBroadcasts', 'decAfterJob')) + '⟩\nend Rj.Generated\n')
 
+    def slash_table():
+        import re as _re
+        doc = read('docs/notes.md')
+        rows = {}
+        lines = doc.split('\n')
+        # find the table: lines starting with '|' containing 'src/a'
+        for i, l in enumerate(lines):
+            m = _re.match(r'\|\s*(?:(File or|symlink|Folder|Non-existent)?\s*)?(?:symlink)?\s*src/a(/?)\s*\*?\|(.*)\|\s*$', l)
+            if not m: continue
+            cells = [c.strip() for c in m.group(3).split('|')]
+            rows[i] = (m.group(2) == '/', cells, l)
+        # row kinds by position: the table lists Non-existent (2 lines around an X line), File-or-symlink (2), Folder (2)
+        idx = sorted(rows)
+        table = []
+        if len(idx) == 6:
+            # non-existent rows have empty cells; the X line sits between them
+            xline = [l for l in lines[idx[0]:idx[1] + 1] if 'Non-existent' in l]
+            nx = [c.strip() for c in xline[0].split('|')[2:-1]] if xline else []
+            table.append(('none', False, nx * 2 if len(nx) == 3 else nx)); table.append(('none', True, nx * 2 if len(nx) == 3 else nx))
+            for j, kind in ((2, 'leaf'), (3, 'leaf'), (4, 'folder'), (5, 'folder')):
+                table.append((kind, rows[idx[j]][0], rows[idx[j]][1]))
+        def cell(c):
+            c = c.replace(' ', '')
+            return {'X': '.x', 'b': '.b false', 'b!': '.b true', 'b/a': '.ba'}.get(c)
+        out = []
+        ok = len(table) == 6
+        for kind, slash, cells in table:
+            if kind == 'none':
+                cs = ['.x'] * 6 if all(c.replace(' ', '') == 'X' for c in cells) and cells else None
+            else:
+                cs = [cell(c) for c in cells] if len(cells) == 6 else None
+            if not cs or None in cs:
+                ok = False; cs = ['.x'] * 6
+            out.append(f'  ⟨.{kind}, {"true" if slash else "false"}, [{", ".join(cs)}]⟩')
+        if not ok:
+            status['slash-table'] = 'docs/notes.md table not recognised'
+        write('SlashTable.lean', 'import RjModel.Model.Root\nnamespace Rj.Generated\ndef slashTableRecognised : Bool := ' + ('true' if ok else 'false') +
+              '\ndef slashTable : List SlashRow := [\n' + ',\n'.join(out) + '\n]\nend Rj.Generated\n')
+
     g_ = g
-    return {'defaults': defaults, 'skeletons': skeletons, 'sites': sites, 'shutdown': shutdown, 'panic_sites': panic_sites, 'walker': walker}
+    return {'defaults': defaults, 'skeletons': skeletons, 'sites': sites, 'shutdown': shutdown, 'panic_sites': panic_sites, 'walker': walker, 'slash_table': slash_table}
